@@ -34,10 +34,14 @@ fn path_of(ctx: &Context<'_>) -> J {
     }
 }
 
-fn views(ctx: &Context<'_>) -> J {
+pub const ALL_FIELD_NAMES: &[&str] = &["id", "label", "peer", "n", "nn", "f", "fnn", "e", "self", "selfNN", "kids", "kidsNN", "opt", "u", "fail", "guarded", "b", "a", "ann", "node", "nodes", "us", "bump", "bumpA"];
+
+pub fn views(ctx: &Context<'_>) -> J {
     // selection-field view: names (with aliases) of the direct sub-fields, fragments followed
     let sel: Vec<J> = ctx.field().selection_set().map(|f| json!({"name": f.name(), "alias": f.alias().unwrap_or("")})).collect();
-    json!({"sel": sel})
+    // look-ahead view: which of the family's field names the look-ahead reports directly below this field
+    let la: Vec<J> = ALL_FIELD_NAMES.iter().filter(|n| ctx.look_ahead().field(n).exists()).map(|n| json!(n)).collect();
+    json!({"sel": sel, "la": la})
 }
 
 /// The common resolver body.
